@@ -605,7 +605,7 @@ func (m *ModAnalysis) analyse(f *ssa.Function) {
 			}
 		}
 		if lib != nil {
-			name := lib.String()
+			name := libName(lib)
 			if ws, ok := libWrites[name]; ok {
 				for _, i := range ws {
 					if i < len(com.Args) {
@@ -887,8 +887,11 @@ func (m *ModAnalysis) PureCall(call ssa.CallInstruction) bool {
 		if inModule(f) {
 			return m.IsPure(f)
 		}
-		if _, ok := libWrites[f.String()]; ok {
+		if _, ok := libWrites[libName(f)]; ok {
 			return false
+		}
+		if n := libName(f); n == "slices.Clone" || n == "maps.Clone" {
+			return true
 		}
 		if _, ok := libRetAlias[f.String()]; ok {
 			return true
